@@ -10,6 +10,14 @@ use zcash_protocol::value::MAX_MONEY;
 
 pub const M: i128 = MAX_MONEY as i128;
 
+/// Finding: `bundle_required` padding of a pool that the (explicitly proposed) transaction version
+/// cannot carry is built and emitted anyway (`check_version_compatibility` only looks at requested
+/// content).
+pub const SIG_REQUIRED_BUNDLE_EMITTED: &str = "required-bundle-emitted-in-version-without-pool";
+/// Finding: `get_fee` prices the `bundle_required` padding of a pool whose bundle `build_for_pczt`
+/// then omits because the transaction version cannot carry it.
+pub const SIG_FEE_OMITTED_BUNDLE: &str = "fee-charged-for-omitted-required-bundle";
+
 #[derive(Clone, Copy, Debug, PartialEq, Eq)]
 pub enum Engine {
     /// full `build` with the mock Sapling provers; transparent + Sapling content only
